@@ -44,11 +44,25 @@ def cases(tier, seed, args):
             sc['K'] = 3
             sc['iterations'] = max(3, sc['iterations'])
         out.append(dict(t='emtrace', **sc))
+    # cACG normalisation x flooring grid: sizeable floors (the floor is reached on ordinary data) and rank-deficient weights
+    for i in range(6 if q else 36):
+        sc = mmd.scenario(rng, 'cacgmm', tier)
+        sc.update(regime='regular', init='soft', dtype='float64', iterations=1 + i % 2, saliency=bool(i % 2), K=2, D=3,
+                  N=int(rng.integers(8, 14)), L=[], wca=(-1,), wca_type='tuple', aligner=False, sam=False)
+        sc['opts'] = dict(covariance_norm=['trace', False, 'eigenvalue'][i % 3], eigenvalue_floor=[0.05, 0.3, 0.15][(i // 3) % 3],
+                          affiliation_eps=1e-10, hermitize=True)
+        out.append(dict(t='emtrace', **sc))
     for i in range(14 if q else 140):
         out.append(dict(t='single', dist=['gauss_full', 'gauss_diagonal', 'gauss_spherical', 'watson', 'vmf', 'cacg', 'bingham'][i % 7],
                         L=[int(rng.integers(1, 3))] * int(rng.integers(0, 2)), D=int(rng.integers(2, 4)), N=int(rng.integers(6, 14)),
                         saliency=bool(i % 2), seed=int(rng.integers(1 << 30)), maxc=[50.0, 20.0, 500.0, 200.0][(i // 7) % 4] if i % 7 != 6 else [500.0, 500.0, 30.0][(i // 7) % 3],
                         concentrated=bool(i % 3 == 0)))
+    # directional trainers: every dimension x concentration limit x spread (estimate below, near and above the limit)
+    for i in range(18 if q else 108):
+        dist = ['vmf', 'watson'][i % 2]
+        out.append(dict(t='single', dist=dist, L=[], D=[2, 3, 5][(i // 2) % 3], N=int(rng.integers(10, 16)), saliency=bool((i // 6) % 2),
+                        seed=int(rng.integers(1 << 30)), maxc=[5.0, 50.0, 500.0][(i // 6) % 3], concentrated=True,
+                        spread=[0.6, 0.2, 0.04][(i // 2 + i // 6) % 3]))
     for i in range(24 if q else 240):
         nl = int(rng.integers(0, 3))
         integ = bool(i % 4 == 3)
@@ -75,6 +89,8 @@ def _common(case, kind, opts):
     wca = case['wca']
     wl = [wca] if isinstance(wca, int) else [int(a) for a in wca]
     return dict(wca=wl, wca_int=isinstance(wca, int), integration=kind in ml.INTEGRATION,
+                floor=enc.flt(opts.get('eigenvalue_floor', 1e-10)),
+                norm={'eigenvalue': 'eigenvalue', 'trace': 'trace', False: 'none'}[opts.get('covariance_norm', 'eigenvalue')],
                 always_sal=kind != 'cacgmm', kmin=enc.flt(1e-10),
                 kmax=enc.flt(case.get('trainer_kw', {}).get('max_concentration', 500.0)))
 
@@ -201,7 +217,7 @@ def _single(case):
     y = rng.normal(size=(*L, N, D)) + (0 if real else 1j * rng.normal(size=(*L, N, D)))
     if case['concentrated']:
         proto = rng.normal(size=(*L, 1, D)) + (0 if real else 1j * rng.normal(size=(*L, 1, D)))
-        y = proto + 0.05 * y
+        y = proto + case.get('spread', 0.05) * y
     sal = rng.integers(0, 4, size=(*L, N)).astype(float) if case['saliency'] and dist != 'cacg' else None
     if sal is not None:
         sal[..., 0] = 1.0
@@ -218,7 +234,7 @@ def _single(case):
         m, exc = call(ComplexWatsonTrainer(max_concentration=case['maxc']).fit, y, saliency=sal)
         comp, z, zc = 'watson', flatz(ml.unit(y)), True
     elif dist == 'vmf':
-        m, exc = call(VonMisesFisherTrainer().fit, y, saliency=sal)
+        m, exc = call(VonMisesFisherTrainer().fit, y, saliency=sal, max_concentration=case['maxc'])
         comp, z, zc = 'vmf', flat(ml.unit(y)), False
     elif dist == 'bingham':
         from pb_bss.distribution.complex_bingham import ComplexBinghamTrainer
@@ -247,7 +263,8 @@ def _single(case):
     rec = dict(kind='mstep', exc='', full=[*L, 1, N], aff=flat(np.ones((*L, 1, N))), has_sal=sal is not None,
                sal=flat(sal) if sal is not None else dict(shape=[], data=[]), has_qf=False, qf=dict(shape=[], data=[]),
                z=z, zcplx=zc, comp=comp, fields=fields, wca=[-1], wca_int=False, integration=False, always_sal=False,
-               kmin=enc.flt(1e-10), kmax=enc.flt(case['maxc'] if dist == 'watson' else 500.0), gtype=dist.split('_')[1] if comp == 'gaussian' else '',
+               floor=enc.flt(1e-10), norm='eigenvalue',
+               kmin=enc.flt(1e-10), kmax=enc.flt(case['maxc'] if dist in ('watson', 'vmf') else 500.0), gtype=dist.split('_')[1] if comp == 'gaussian' else '',
                glead=[list(map(int, ix)) for ix in np.ndindex(*L)], gshared=False, watson_ratio=[], pooled='',
                emb=dict(shape=[], data=[]), fp=fp, key=key)
     if comp == 'watson':
